@@ -179,6 +179,50 @@ func c15Gen(g *Gen, prev *c15Cand) c15Cand {
 		if g.R.Chance(35) {
 			c.tk, c.fv, c.fr, c.fu = "t"+strconv.Itoa(g.R.Intn(3)), uint64(g.R.Range(1, 4)), uint8(g.R.Range(1, 3)), int64(g.R.Range(1, 500))
 		}
+	} else if g.R.Chance(22) {
+		// exactly one field differs from the (guessed) stored row, same epochs
+		c = *prev
+		c.r = append([]uint64(nil), prev.r...)
+		c.i = append([]uint64(nil), prev.i...)
+		switch g.R.Intn(9) {
+		case 0:
+			c.st = prev.st + 1
+		case 1:
+			c.ls = prev.ls + int64(g.R.Range(1, 9))
+		case 2:
+			c.rs = prev.rs + 1
+		case 3:
+			c.ra = prev.ra + 1
+		case 4:
+			c.ft = prev.ft + 1
+		case 5:
+			c.dg = prev.dg + 1
+		case 6:
+			if len(c.i) < c15Distinct(c.r) {
+				c.i = append([]uint64(nil), c.r...)
+			} else if len(c.i) > 1 {
+				keep := []uint64{c.ld}
+				c.i = keep
+			}
+		case 7:
+			if c.tk != "" {
+				c.fu = prev.fu + 1
+				c.fv = prev.fv + 1
+			} else {
+				c.tk, c.fv, c.fr, c.fu = "t9", prev.fv+1, 1, 10
+			}
+		default:
+			// identical re-submission
+		}
+		c.rg = 0
+		if g.R.Chance(40) {
+			c.rg = prev.rg
+		}
+		if g.R.Chance(50) {
+			c.mi = prev.mi
+		}
+		g.Count("cand:single-field")
+		return c
 	} else {
 		c = *prev
 		c.r = append([]uint64(nil), prev.r...)
